@@ -15,6 +15,7 @@
 EXTENDS ExecLaws, Universe, SequencesExt, Json
 
 KM == <<109>>
+KVal == <<118,97,108,117,101>>      \* "value"
 At(a) == <<NCur>> \o a
 Prefixes2 == { <<NRoot, NAnyArr>>, <<NRoot, NAnyKey>>, <<NRoot, NAny(1, 1)>>, <<NRoot, NAny(2, 2)>>, <<NRoot, NAny(0, -1)>>,
                <<NRoot, NIdx(<<Sub1(Lit(0)), Sub1(Lit(1))>>)>>, <<NRoot, NIdx(<<Sub2(Lit(0), Lit(1))>>)>>, <<NRoot, NAnyArr, NAnyArr>> }
@@ -30,6 +31,10 @@ PathSet ==
   {p \o f : p \in Prefixes2, f \in FailSteps}
   \cup {p \o <<g>> \o f : p \in {<<NRoot, NAnyArr>>, <<NRoot, NAnyKey>>, <<NRoot>>}, g \in FailOps,
                           f \in {<<NKey(KB), NMethod("integer")>>, <<NKey(KB), NMethod("double")>>, <<NKey(KM)>>, <<NKey(KB)>>}}
+  (* .keyvalue() pairs come in key order; a later step fails on the first / middle / last pair *)
+  \cup {p \o <<NMethod("keyvalue"), NKey(KVal)>> \o f : p \in {<<NRoot>>, <<NRoot, NAnyArr>>}, f \in {<<NMethod("integer")>>, <<NMethod("double")>>, <<NKey(KA)>>}}
+  \cup {<<NRoot, NFilter(NBin("gt", At(<<NMethod("keyvalue"), NKey(KVal), NMethod("integer")>>), Lit(2)))>>,
+        <<NRoot, NFilter(NUn("exists", At(<<NMethod("keyvalue"), NKey(KVal), NMethod("integer")>>)))>>}
   \cup {<<NBin("gt", <<NRoot, NAnyArr, NKey(KA)>>, Lit(0)), NMethod("type"), NKey(KM)>>,
         <<NUn("exists", <<NRoot, NAnyArr, NKey(KA), NMethod("integer")>>), NMethod("integer")>>}
 PathRows == SetToSeq({[pred |-> FALSE, chain |-> p] : p \in PathSet})
@@ -42,6 +47,9 @@ Elems2 == Objs \cup Scal \cup {VArr(<<SX>>), VArr(<<VFlt(2)>>), VArr(<<VFlt(2), 
 DocSet == {VArr(<<a, b>>) : a \in Elems2, b \in Elems2}
           \cup {VObj(<<[k |-> KA, v |-> a], [k |-> KB, v |-> b]>>) : a \in Scal \cup {VArr(<<SX>>), VArr(<<VFlt(2)>>)}, b \in Scal \cup {VArr(<<VFlt(2)>>)}}
           \cup Objs
+          \cup {VObj(<<[k |-> KA, v |-> a], [k |-> KB, v |-> b], [k |-> KC, v |-> c]>>) :
+                   a \in {SX, VStr(<<49>>)}, b \in {SX, VStr(<<49>>)}, c \in {SX, VStr(<<51>>)}}
+          \cup {VArr(<<VObj(<<[k |-> KA, v |-> VStr(<<49>>)], [k |-> KB, v |-> SX], [k |-> KC, v |-> VStr(<<51>>)]>>)>>)}
 DocSeq == SetToSeq(DocSet)
 
 ASSUME ndJsonSerialize("paths.ndjson", PathRows)
